@@ -90,7 +90,8 @@ Print Assumptions C03_estimator_layout_refuted.
 
 (* A non-trivial run of the instance (hypotheses satisfiable, values not all equal): operator+sampler, alpha = 1/2,
    initial state x(1), circuits [h(0); cx(0,1)] and [rx(3 pi) on qubit 1], observable Z0 Z1 + 1/2 Z0, through
-   Transpiling(layout (0 2), routing swap (1 2)) around Batching(1 foreign pub before, 2 after) around Mutex. *)
+   Transpiling(layout (0 2), routing swap (1 2)) around Batching(1 foreign pub before, 2 after, each with 1024 shots while
+   this evaluator uses 64: shots are per pub, also in C03_sampler_paths where the foreign pubs are arbitrary) around Mutex. *)
 Example C03_example_batch_sampler :
   stack_ok csem cpermute ex_stack
   /\ eval_operator_sampler ccompose cwid cagg_op (wrap_sampler cwmap ex_stack (pointwise csampler1)) 64 ex_obs (1 # 2)
